@@ -78,11 +78,48 @@ def build_sdl(desc):
     return build_schema(gs.to_sdl(desc))
 
 
-def ty_live(j, reg):
+_SUB = {}
+
+
+def subclasses():
+    """One (trivial) SUBCLASS of every library type class: the documented way to write custom scalars is to
+    subclass ScalarType; nothing forbids the others. A subclass instance must be reported exactly like an
+    instance of the plain class."""
+    if not _SUB:
+        import py_gql.schema as S
+        for name in ("ScalarType", "ObjectType", "InterfaceType", "UnionType", "EnumType", "InputObjectType",
+                     "ListType", "NonNullType"):
+            base = getattr(S, name)
+            _SUB[name] = type("Sub" + name, (base,), {"__doc__": "subclass of %s (C15 generator)" % name})
+        _SUB["SubSub"] = type("SubSubObjectType", (_SUB["ObjectType"],), {})
+    return _SUB
+
+
+def ty_live(j, reg, cls=None):
     from py_gql.schema import ListType, NonNullType
     if j["k"] == "named":
         return reg[j["n"]]
-    return (ListType if j["k"] == "list" else NonNullType)(ty_live(j["t"], reg))
+    lt, nt = (cls["ListType"], cls["NonNullType"]) if cls else (ListType, NonNullType)
+    return (lt if j["k"] == "list" else nt)(ty_live(j["t"], reg, cls))
+
+
+EXTRA_SCALARS = ("Rx", "UUID")
+
+
+def add_library_scalars(d):
+    """Extend a dump with the scalar helpers the library exports (`RegexType`, `UUID`) and a query field using them."""
+    from py_gql.schema import UUID, RegexType
+    rx = RegexType("Rx", "^a+$")
+    d = copy.deepcopy(d)
+    blank = {"interfaces": [], "fields": [], "members": [], "values": [], "input_fields": []}
+    d["types"].append(dict(blank, kind="scalar", name="Rx", desc=rx.description))
+    d["types"].append(dict(blank, kind="scalar", name="UUID", desc=UUID.description))
+    q = [t for t in d["types"] if t["name"] == d["query"]][0]
+    q["fields"].append({"name": "libScalars", "type": {"k": "named", "n": "Rx"}, "deprecated": None, "desc": None, "args": [
+        {"name": "rx", "type": {"k": "list", "t": {"k": "nonNull", "t": {"k": "named", "n": "Rx"}}}, "has_default": True,
+         "default_value": ["aa", "a"], "desc": None},
+        {"name": "id", "type": {"k": "named", "n": "UUID"}, "has_default": False, "default_value": None, "desc": None}]})
+    return d
 
 
 def remap_value(v, tj, dump_types, enum_map):
@@ -116,10 +153,12 @@ def uncanon(v):
     return v
 
 
-def build_code(d, enum_map=None):
+def build_code(d, enum_map=None, subclass=False):
     """
     Build a live schema *in code* from a dump description `d` (user types/directives only; built-ins by name).
     `enum_map`: {enum name: {value name: internal value}}; defaults are translated accordingly.
+    `subclass`: every type object (wrappers included) is an instance of a SUBCLASS of the library class, and the
+    scalars named in EXTRA_SCALARS are the library's own `RegexType` instance / `UUID` object.
     """
     from py_gql.schema import (Argument, Directive, EnumType, EnumValue, Field, InputField, InputObjectType,
                                InterfaceType, ObjectType, Schema, UnionType, ScalarType, SPECIFIED_DIRECTIVES)
@@ -127,6 +166,16 @@ def build_code(d, enum_map=None):
     from py_gql.schema.introspection import INTROPSPECTION_TYPES
     enum_map = enum_map or {}
     reg = {t.name: t for t in SPECIFIED_SCALAR_TYPES + INTROPSPECTION_TYPES}
+    sub = None
+    if subclass:
+        from py_gql.schema import UUID, RegexType
+        sub = subclasses()
+        ScalarType, EnumType, InputObjectType, InterfaceType, UnionType = (
+            sub["ScalarType"], sub["EnumType"], sub["InputObjectType"], sub["InterfaceType"], sub["UnionType"])
+        ObjectType = sub["SubSub"]
+        if any(t["name"] == "Rx" for t in d["types"]):
+            reg["Rx"] = RegexType("Rx", "^a+$")
+            reg["UUID"] = UUID
     spec_dirs = {x.name for x in SPECIFIED_DIRECTIVES}
     dump_types = {t["name"]: t for t in d["types"]}
 
@@ -134,10 +183,10 @@ def build_code(d, enum_map=None):
         kw = {}
         if a["has_default"]:
             kw["default_value"] = remap_value(uncanon(a["default_value"]), a["type"], dump_types, enum_map)
-        return cls(a["name"], (lambda tj=a["type"]: ty_live(tj, reg)), description=a["desc"], **kw)
+        return cls(a["name"], (lambda tj=a["type"]: ty_live(tj, reg, sub)), description=a["desc"], **kw)
 
     def mk_field(f):
-        return Field(f["name"], (lambda tj=f["type"]: ty_live(tj, reg)), args=[mk_arg(Argument, a) for a in f["args"]],
+        return Field(f["name"], (lambda tj=f["type"]: ty_live(tj, reg, sub)), args=[mk_arg(Argument, a) for a in f["args"]],
                      description=f["desc"], deprecation_reason=f["deprecated"])
 
     for t in d["types"]:
